@@ -94,14 +94,17 @@ RenHead(h, f) ==
 (* Directives: SoyExec's three plus the installed custom ones.  The custom *)
 (* directive "exclaim" appends "!" and does not cancel autoescaping.       *)
 (***************************************************************************)
-ApplyDir(name, text) ==
+\* custom directives append a suffix: the one the configuration gives for the
+\* name (cfg.sfx), "!" for exclaim by default
+ApplyDir(name, text, cfg) ==
   CASE name = "escapeHtml" -> X(NoShared)!EscapeHtml(text)     \* constant-level operator of SoyExec
+    [] "sfx" \in DOMAIN cfg /\ name \in DOMAIN cfg.sfx -> text \o cfg.sfx[name]
     [] name = "exclaim" -> text \o "!"
     [] OTHER -> text
 
-RECURSIVE ApplyDirsC(_, _, _)
-ApplyDirsC(text, dirs, i) ==
-  IF i > Len(dirs) THEN text ELSE ApplyDirsC(ApplyDir(dirs[i].name, text), dirs, i + 1)
+RECURSIVE ApplyDirsC(_, _, _, _)
+ApplyDirsC(text, dirs, i, cfg) ==
+  IF i > Len(dirs) THEN text ELSE ApplyDirsC(ApplyDir(dirs[i].name, text, cfg), dirs, i + 1, cfg)
 
 ObligDirs(cfg) == [i \in 1..Len(cfg.oblig) |-> [name |-> cfg.oblig[i], args |-> <<>>]]
 
@@ -162,11 +165,11 @@ PrintF(s, sh, h, rest) ==
   \* from here on the pinned code has already appended to the node
   ELSE IF ~simple THEN
        IF ~Printable(v) \/ ~extended THEN [s |-> NoClaimF(s1), sh |-> sh1]
-       ELSE LET t0 == ApplyDirsC(ToText(Dr!ApplyChain(chain, v)), ObligDirs(cfg), 1)
+       ELSE LET t0 == ApplyDirsC(ToText(Dr!ApplyChain(chain, v)), ObligDirs(cfg), 1, cfg)
                 t == IF TopF(s).esc /\ ~Dr!Cancels(chain) THEN X(s)!EscapeHtml(t0) ELSE t0 IN
             [s |-> EmitF(s1, t, rest), sh |-> sh1]
   ELSE IF ~Printable(v) THEN [s |-> NoClaimF(s1), sh |-> sh1]
-  ELSE LET t0 == ApplyDirsC(ToText(v), dirs, 1)
+  ELSE LET t0 == ApplyDirsC(ToText(v), dirs, 1, cfg)
            t == IF TopF(s).esc /\ ~cancel THEN X(s)!EscapeHtml(t0) ELSE t0 IN
        [s |-> EmitF(s1, t, rest), sh |-> sh1]
 
